@@ -4,6 +4,7 @@ import RuxModel.Spec.Writer
 -/
 namespace Rux
 namespace Writer
+set_option linter.unusedSimpArgs false
 
 def norm (st : Int) : Int := if st = 0 then 200 else st
 
@@ -21,7 +22,7 @@ theorem ensure_committed (w : W) (h : 0 ≤ w.length) : ensure w = w := by
   simp [this]
 
 theorem ensure_fresh (w : W) (h : w.length = -1) :
-    ensure w = { w with status := norm w.status, length := 0, log := w.log ++ [.wh (norm w.status)] } := by
+    ensure w = { w with status := norm w.status, length := 0, sent := some w.ctype, log := w.log ++ [.wh (norm w.status)] } := by
   unfold ensure norm
   simp [h]
 
@@ -119,7 +120,7 @@ theorem fresh_run (ops : List Op) : ∀ w : W, w.length = -1 →
       simp [step, statusFrom, ioEvents, specLength, List.filterMap_cons, Op.ev, Op.accepted]
     | write b acc err =>
       have hs : step w (.write b acc err) =
-          { w with status := norm w.status, length := 0 + acc,
+          { w with status := norm w.status, length := 0 + acc, sent := some w.ctype,
                    log := w.log ++ [.wh (norm w.status)] ++ [.w b acc err] } := by
         simp only [step, ensure_fresh w hw]
       have hc : 0 ≤ (step w (.write b acc err)).length := by rw [hs]; simp
@@ -128,7 +129,7 @@ theorem fresh_run (ops : List Op) : ∀ w : W, w.length = -1 →
       simp [statusFrom, ioEvents, specLength, List.filterMap_cons, Op.ev, Op.accepted]
     | flush =>
       have hs : step w .flush =
-          { w with status := norm w.status, length := 0,
+          { w with status := norm w.status, length := 0, sent := some w.ctype,
                    log := w.log ++ [.wh (norm w.status)] ++ [.fl] } := by
         simp only [step, ensure_fresh w hw]
       have hc : 0 ≤ (step w .flush).length := by rw [hs]; simp
